@@ -335,13 +335,15 @@ RUpd(st, u) ==
         [] st.type = CHOICET ->
              [st EXCEPT !.value = [@ EXCEPT !.data = [@ EXCEPT ![u.v.n + 1] = <<@[1] + 1, 1>>]],
                         !.total = NAdd(@, Num("PyInt", 1, 1)), !.vlist = accv, !.num = @ + 1]
-\* Result.merge(other): accumulated lists are extended; MISCTYPE takes the other's counters and value, every other
-\* type adds them (a MISC result merged with a never-updated one ends with num = 0 but a non-empty value list)
+\* Result.merge(other): accumulated lists are extended; MISCTYPE takes the other's counters and value - unless the other
+\* was never updated: it has no observation that could win (as repaired in /repo: before, such a merge left num = 0 next
+\* to a value and a non-empty value list) -, every other type adds them
 AddArr(a, b) == [a EXCEPT !.data = [i \in 1..Len(a.data) |-> <<a.data[i][1] + b.data[i][1], 1>>]]
 RMerge(st, o) ==
   LET st1 == IF st.acc THEN [st EXCEPT !.vlist = @ \o o.vlist, !.tlist = @ \o o.tlist] ELSE st
   IN  IF st.type = MISCT
-      THEN [st1 EXCEPT !.num = o.num, !.value = o.value, !.total = o.total, !.rsum = o.rsum, !.rsq = o.rsq]
+      THEN IF o.num = 0 THEN st1
+           ELSE [st1 EXCEPT !.num = o.num, !.value = o.value, !.total = o.total, !.rsum = o.rsum, !.rsq = o.rsq]
       ELSE [st1 EXCEPT !.num = @ + o.num, !.value = IF st.type = CHOICET THEN AddArr(@, o.value) ELSE NAdd(@, o.value),
                        !.total = NAdd(@, o.total), !.rsum = NAdd(@, o.rsum), !.rsq = NAdd(@, o.rsq)]
 \* a history item is an update [op "upd", v, tot] or the merge of another result given by ITS history [op "merge", rd <<R>>]
